@@ -113,12 +113,22 @@ def main():
     print("candidate sites:", len(allsites), flush=True)
     done = 0
     stats = dict(nocompile=0, suite_kills=0, killed=0, survived=0)
+    seen = set()
+    if os.path.exists("/tmp/mut/mutlog.jsonl"):
+        for l in open("/tmp/mut/mutlog.jsonl"):
+            try:
+                d = json.loads(l)
+                seen.add((d["file"], d["line"], d["new"]))
+            except Exception:
+                pass
     log = open("/tmp/mut/mutlog.jsonl", "a")
     for site in allsites:
         if done >= n:
             break
         sh("git checkout -q -- src", REPO)
         old, new = apply(site)
+        if (site[0], site[1] + 1, new.strip()) in seen:
+            continue
         rc, out = sh("cargo build --offline --lib 2>&1 | tail -3", REPO)
         if "error" in out:
             stats["nocompile"] += 1
